@@ -11,6 +11,7 @@ import (
 	"io"
 	"io/ioutil"
 	"os"
+	"reflect"
 
 	jmespath "github.com/jmespath/go-jmespath"
 )
@@ -215,7 +216,11 @@ func VerifRun() {
 		verifNote("code0", code == 0)
 		verifAssert((code == 0) == expectOK, "C19:exit-status")
 		if expectOK {
-			verifAssert(out == want, "C19:stdout-is-the-library-result")
+			// any JSON serialisation of exactly the library's value, and nothing else
+			var printed, expected interface{}
+			okp := json.Unmarshal([]byte(out), &printed) == nil
+			json.Unmarshal([]byte(want), &expected)
+			verifAssert(okp && reflect.DeepEqual(printed, expected), "C19:stdout-is-the-library-result")
 		} else {
 			verifAssert(out == "", "C19:no-result-on-stdout-on-failure")
 		}
